@@ -62,6 +62,101 @@ def assembleRet : List Step → Bool → Option Int
           else assembleRet rest errFlag
       | .other => some (-1)
 
+/-! ### The same loop with its three exits made explicit
+
+  `assemble()` can be left in three ways: `return` from inside the loop (a handler failed, `.endr`/`.else`/`.endif`
+  closed the block being assembled), `break` at `TOKEN_EOF`, and `break` at the no-dot `end` directive
+  (`directive()` returns 2).  Both `break`s reach the code BEHIND the loop, `if (error == true) { return -1; }
+  return 0;`, which is the only place where the sticky flag `asm_context->error` is tested.  Handlers that report an
+  error without failing their statement rely on it: asm/dspic.cpp ("Unknown instruction" / "Unknown operands combo":
+  `error = 1; return 4`) and core/Macros.cpp (a failed macro expansion sets `error = 1` and the lexer hands the
+  caller TOKEN_EOF, which a data directive takes for the end of its operand list). -/
+
+/-- what `directive(token)` reported for a word at statement position -/
+inductive StmtResult where
+  | endDirective          -- 2: the `end` directive
+  | failed                -- -1
+  | handled               -- 1: a data/org/... directive without a dot, done
+  | notDirective          -- anything else: `NAME equ VALUE` or an instruction
+  deriving Repr, DecidableEq
+
+def stmtResult (r : Int) : StmtResult :=
+  if r = 2 then .endDirective else if r = -1 then .failed else if r ≠ 1 then .notDirective else .handled
+
+/-- what a loop pass does with the loop -/
+inductive Act where
+  | next                  -- go on with the next statement
+  | leave                 -- `break`: the code behind the loop decides
+  | ret (n : Int)         -- `return n` from inside the loop
+  deriving Repr, DecidableEq
+
+def Step.act (s : Step) : Act :=
+  if s.ec > 0 then .ret (-1)
+  else match s.ev with
+    | .eol => .next
+    | .eof => .leave
+    | .label r => if r = -1 then .ret (-1) else .next
+    | .dir n => if n = 3 then .ret 3 else if n = 4 then .ret 2 else if n = 5 then .ret 5
+                else if n ≠ 0 then .ret (-1) else .next
+    | .word r instr =>
+        match stmtResult r with
+        | .endDirective => .leave
+        | .failed => .ret (-1)
+        | .handled => .next
+        | .notDirective =>
+            match instr with
+            | none => .next
+            | some i => if i < 0 then .ret (-1) else .next
+    | .other => .ret (-1)
+
+/-- the code behind the loop: `if (error == true) { return -1; } return 0;` -/
+def afterLoop (errFlag : Bool) : Int := if errFlag then -1 else 0
+
+/-- AsmContext::assemble() with the exits explicit; equal to `assembleRet` (`assembleRet_eq_loop`) -/
+def assembleLoop : List Step → Bool → Option Int
+  | [], _ => none
+  | s :: rest, errFlag =>
+    match s.act with
+    | .next => assembleLoop rest errFlag
+    | .leave => some (afterLoop errFlag)
+    | .ret n => some n
+
+theorem assembleRet_eq_loop (steps : List Step) (e : Bool) : assembleRet steps e = assembleLoop steps e := by
+  induction steps with
+  | nil => rfl
+  | cons s rest ih =>
+      obtain ⟨ec, ev⟩ := s
+      unfold assembleRet assembleLoop Step.act
+      by_cases hec : ec > 0
+      · simp only [hec, ↓reduceIte]
+      · simp only [hec, ↓reduceIte]
+        cases ev with
+        | eol => exact ih
+        | eof => rfl
+        | label r => by_cases h : r = -1 <;> simp [h, ih]
+        | dir n =>
+            by_cases h3 : n = 3
+            · subst h3; rfl
+            · by_cases h4 : n = 4
+              · subst h4; rfl
+              · by_cases h5 : n = 5
+                · subst h5; rfl
+                · by_cases h0 : n = 0
+                  · subst h0; simpa using ih
+                  · simp [h3, h4, h5, h0]
+        | word r instr =>
+            unfold stmtResult
+            by_cases h2 : r = 2
+            · subst h2; rfl
+            · by_cases hm : r = -1
+              · subst hm; rfl
+              · by_cases h1 : r = 1
+                · subst h1; simpa using ih
+                · cases instr with
+                  | none => simpa [h2, hm, h1] using ih
+                  | some i => by_cases hi : i < 0 <;> simp [h2, hm, h1, hi, ih]
+        | other => rfl
+
 /-- a loop pass on which nothing was reported -/
 def Step.clean (s : Step) : Bool :=
   s.ec = 0 && match s.ev with
